@@ -173,6 +173,9 @@ class Scheduler:
         self.marks: list[tuple[int, str]] = []  # (pt, mark) for targeted policy / debugging
         self.finished = False
         self.hot = 0
+        self.hot_p = 0.5
+        self.hot_avoid = None
+        self.put_hook = None  # optional callable(item): lets a profile aim pre-emption at the moment something is published
         self.fatal: tuple[str, str] | None = None
         # Ctrl-C delivery points: CPython raises KeyboardInterrupt only where the eval breaker is checked
         # (RESUME, calls, backward jumps); optional callable(simthread, code, offset, kind), may raise
@@ -294,8 +297,9 @@ class Scheduler:
                 if cur_can:
                     p = pol.p_switch
                     if self.hot > 0:
+                        # "hot": the marking thread should lose the baton, everybody else should keep it
                         self.hot -= 1
-                        p = max(p, 0.5)
+                        p = max(p, self.hot_p) if cur.sid == self.hot_avoid else 0.0
                     deviate = rng.random() < p
                 if deviate:
                     if earliest is not None and rng.random() < pol.p_tick:
@@ -383,6 +387,8 @@ class Scheduler:
         self.probes["mark:" + what] += 1
         if self.policy is not None and self.policy.kind == "targeted":
             self.hot = 3
+            self.hot_p = 0.5
+            self.hot_avoid = self.current.sid if self.current is not None else None
 
     def thread_exit(self, st: SimThread) -> None:
         st.state = "done"
@@ -429,7 +435,9 @@ class Scheduler:
             return
         p = pol.p_line
         if self.hot > 0:
-            p = 0.5
+            p = self.hot_p if cur.sid == self.hot_avoid else 0.0
+            if p == 0.0:
+                self.hot -= 1
         if pol.rng.random() < p:
             # forced consideration: temporarily make a switch certain
             saved = pol.p_switch
@@ -645,6 +653,10 @@ def _queue_put(self, item, block=True, timeout=None) -> None:
         if s is not None:
             s.point("q_put")
             self._sim_items.append(item)
+            # targeted policy: right after a producer published something, prefer the other parties for a few points
+            s.mark("q_put")
+            if s.put_hook is not None:
+                s.put_hook(item)
             return
         if ACTIVE is not None and not ACTIVE.finished:
             # uncontrolled thread during a simulation: still use the sim storage
